@@ -245,30 +245,51 @@ Definition mqtt_enqueue (c : mqtt_cfg) (r : register) (u : update) : list pubmsg
 
 (* a history of the target: updates arriving (direct_update, synchronous in the
    sender), the publish loop taking one message off pub_q, ingresses being
-   registered. Any interleaving of these is a history. *)
+   registered, the MQTT client becoming available (connection.process() hands
+   it over) or going away (connection stopped, until the next one is set up).
+   Any interleaving of these is a history.
+   Taking a message off the queue while there is no client DISCARDS it:
+   publish_msg is called with connection.client() = None and do_publish then
+   returns Ok(()) (target.rs, last branch of do_publish). *)
 Inductive mev :=
 | MUpdate (u : update)
 | MPublish
-| MRegister (id info : N).
+| MRegister (id info : N)
+| MClient (up : bool).
 
-Record mstate := MkMs { ms_reg : register; ms_queue : list pubmsg; ms_published : list pubmsg }.
+Record mstate := MkMs { ms_reg : register; ms_client : bool;
+                        ms_queue : list pubmsg; ms_published : list pubmsg }.
 
-Definition mqtt_init : mstate := MkMs [] [] [].
+Definition mqtt_init : mstate := MkMs [] false [] [].
 
 Definition mqtt_step (c : mqtt_cfg) (s : mstate) (e : mev) : mstate :=
   match e with
-  | MUpdate u => MkMs (ms_reg s) (ms_queue s ++ mqtt_enqueue c (ms_reg s) u) (ms_published s)
+  | MUpdate u => MkMs (ms_reg s) (ms_client s) (ms_queue s ++ mqtt_enqueue c (ms_reg s) u) (ms_published s)
   | MPublish => match ms_queue s with
                 | [] => s
-                | p :: q => MkMs (ms_reg s) q (ms_published s ++ [p])
+                | p :: q => MkMs (ms_reg s) (ms_client s) q
+                                 (if ms_client s then ms_published s ++ [p] else ms_published s)
                 end
-  | MRegister id info => MkMs ((id, info) :: ms_reg s) (ms_queue s) (ms_published s)
+  | MRegister id info => MkMs ((id, info) :: ms_reg s) (ms_client s) (ms_queue s) (ms_published s)
+  | MClient up => MkMs (ms_reg s) up (ms_queue s) (ms_published s)
   end.
 
-Definition mqtt_run (c : mqtt_cfg) (h : list mev) : mstate := fold_left (mqtt_step c) h mqtt_init.
+Definition mqtt_run_from (c : mqtt_cfg) (s : mstate) (h : list mev) : mstate := fold_left (mqtt_step c) h s.
+Definition mqtt_run (c : mqtt_cfg) (h : list mev) : mstate := mqtt_run_from c mqtt_init h.
 
-(* the publish loop runs until pub_q is empty *)
-Definition mqtt_drain (s : mstate) : mstate := MkMs (ms_reg s) [] (ms_published s ++ ms_queue s).
+(* the publish loop, with a client, runs until pub_q is empty *)
+Definition mqtt_drain (s : mstate) : mstate :=
+  MkMs (ms_reg s) true [] (ms_published s ++ ms_queue s).
+
+(* histories in which the publish loop only takes messages while a client exists
+   ([up] = is there one at the start) *)
+Fixpoint publishes_connected (up : bool) (h : list mev) : bool :=
+  match h with
+  | [] => true
+  | MPublish :: h' => up && publishes_connected up h'
+  | MClient up' :: h' => publishes_connected up' h'
+  | _ :: h' => publishes_connected up h'
+  end.
 
 (* THE PROPERTY's demand: every message addressed to the target, in emission
    order, with the ingress information known when it was emitted *)
@@ -276,8 +297,8 @@ Fixpoint mqtt_spec (c : mqtt_cfg) (r : register) (h : list mev) : list pubmsg :=
   match h with
   | [] => []
   | MUpdate u :: h' => mqtt_enqueue c r u ++ mqtt_spec c r h'
-  | MPublish :: h' => mqtt_spec c r h'
   | MRegister id info :: h' => mqtt_spec c ((id, info) :: r) h'
+  | _ :: h' => mqtt_spec c r h'
   end.
 
 (* entry points for the correspondence oracle *)
